@@ -72,6 +72,7 @@ type Ctx struct {
 	Home      string // /verif
 	Repo      string // /repo (or scratch tree under test)
 	Deadline  time.Time
+	Out       string
 	R         Result
 
 	kinds    map[string]EvalFn
@@ -269,4 +270,41 @@ func SigShape(b []byte) string {
 		s = s[:80] + "~"
 	}
 	return strings.ReplaceAll(s, " ", "\\x20")
+}
+
+// ---- watchdog (termination oracle for C01; generous, never a timing test) ----
+
+var watchCase atomicCase
+
+type atomicCase struct {
+	mu    chan struct{}
+	cs    *Case
+	since time.Time
+	desc  string
+}
+
+// Watch arms the watchdog for one evaluation; Unwatch disarms it.
+func (c *Ctx) Watch(cs *Case, desc string) {
+	watchCase.cs, watchCase.desc, watchCase.since = cs, desc, time.Now()
+}
+func (c *Ctx) Unwatch() { watchCase.cs = nil }
+
+// StartWatchdog starts a goroutine that, if a single evaluation runs longer
+// than max, records a non-termination violation, writes the result file and
+// ends the worker (the stuck goroutine cannot be recovered).
+func (c *Ctx) StartWatchdog(max time.Duration, out string) {
+	go func() {
+		for {
+			time.Sleep(2 * time.Second)
+			cs := watchCase.cs
+			if cs != nil && time.Since(watchCase.since) > max {
+				cp := *cs
+				cp.In = append([]byte{}, cs.In...)
+				c.report(&cp, "C01/no-termination/"+watchCase.desc, fmt.Sprintf("evaluation did not return within %s: %s input %s limit %d", max, watchCase.desc, Quote(cp.In), cp.Limit))
+				c.Cap("worker-ended-by-watchdog")
+				c.Write(out)
+				os.Exit(0)
+			}
+		}
+	}()
 }
